@@ -847,8 +847,34 @@ type bigLA struct {
 
 // lookahead-big <n>: a failing first alternative that consumes n tokens before the second one matches, under lookaheads
 // around and beyond MaxLookahead; prints "k\toutcome".
+type deepLA struct {
+	Sub  *deepLA `(  "(" @@ ")"`
+	Name string  ` | @Ident )`
+}
+
 func lookaheadBig(args []string) error {
 	n, _ := strconv.Atoi(args[0])
+	// more than MaxLookahead productions open inside one another
+	debug.SetMaxStack(2 << 30)
+	deep := strings.Repeat("(", n+8) + "x" + strings.Repeat(")", n+8)
+	for _, k := range []int{1, 3, participle.MaxLookahead, 3 * participle.MaxLookahead, -1, -7} {
+		res := runGuardedFor(300*time.Second, func() string {
+			p, err := participle.Build[deepLA](participle.UseLookahead(k))
+			if err != nil {
+				return "builderr " + err.Error()
+			}
+			v, err := p.ParseString("", deep)
+			if err != nil {
+				return "err"
+			}
+			d := 0
+			for ; v.Sub != nil; v = v.Sub {
+				d++
+			}
+			return fmt.Sprintf("ok depth=%d name=%s", d, v.Name)
+		})
+		fmt.Printf("deep\t%d\t%s\n", k, res)
+	}
 	in := strings.Repeat("x ", n) + "?"
 	for _, k := range []int{0, 1, participle.MaxLookahead, participle.MaxLookahead + 50000, -1, -7} {
 		res := runGuardedFor(120*time.Second, func() string {
@@ -862,7 +888,7 @@ func lookaheadBig(args []string) error {
 			}
 			return fmt.Sprintf("ok A=%d B=%d", len(v.A), len(v.B))
 		})
-		fmt.Printf("%d\t%s\n", k, res)
+		fmt.Printf("flat\t%d\t%s\n", k, res)
 	}
 	return nil
 }
@@ -920,6 +946,121 @@ func leakBig(args []string) error {
 				return len(v.A), len(v.B), nil
 			})
 		}
+	}
+	return nil
+}
+
+func init() { commands["elide-many"] = elideMany }
+
+type manyG struct {
+	Words []string `( @Ident | "(" | ")" )*`
+}
+
+// elide-many: a lexer with many rules (the elided types are declared last, so their token types are far below -64; also
+// more than 64 rules before them) and re-spaced inputs: "rules\tinput\toutcome".
+func elideMany(args []string) error {
+	for _, nrules := range []int{5, 62, 63, 64, 65, 70, 130} {
+		var rules []lexer.SimpleRule
+		for i := 0; i < nrules; i++ {
+			rules = append(rules, lexer.SimpleRule{Name: fmt.Sprintf("K%d", i), Pattern: fmt.Sprintf("@k%d@", i)})
+		}
+		rules = append(rules, lexer.SimpleRule{Name: "Ident", Pattern: `[a-z]+`}, lexer.SimpleRule{Name: "Punct", Pattern: `[()]`},
+			lexer.SimpleRule{Name: "Comment", Pattern: `#[a-z]*#`}, lexer.SimpleRule{Name: "Whitespace", Pattern: `\s+`})
+		p, err := participle.Build[manyG](participle.Lexer(lexer.MustSimple(rules)), participle.Elide("Comment", "Whitespace"))
+		if err != nil {
+			return err
+		}
+		for _, in := range []string{"(a b c)", "( a  b\tc )", " (a #x# b c) ", "(a\nb#y#c)#z#", "#q#(a b c)"} {
+			v, err := p.ParseString("", in)
+			res := "err"
+			if err == nil {
+				res = strings.Join(v.Words, ",")
+			}
+			fmt.Printf("%d\t%q\t%s\n", nrules, in, res)
+		}
+	}
+	return nil
+}
+
+func init() { commands["posfields-static"] = posfieldsStatic }
+
+type posBase struct {
+	Pos    lexer.Position
+	EndPos lexer.Position
+	Tokens []lexer.Token
+}
+type nodePlain struct {
+	Pos    lexer.Position
+	EndPos lexer.Position
+	Tokens []lexer.Token
+	Name   string       `@Ident`
+	Kids   []*nodePlain `( "(" @@* ")" )?`
+}
+
+// the node's own fields shadow those of an embedded struct declared before them (Go: the shallowest field wins)
+type nodeShadow struct {
+	posBase
+	Pos    lexer.Position
+	EndPos lexer.Position
+	Tokens []lexer.Token
+	Name   string        `@Ident`
+	Kids   []*nodeShadow `( "(" @@* ")" )?`
+}
+
+// only the embedded struct has them: they are the node's (promoted) fields
+type nodePromoted struct {
+	posBase
+	Name string          `@Ident`
+	Kids []*nodePromoted `( "(" @@* ")" )?`
+}
+
+// posfields-static: Pos / EndPos / Tokens of nodes that embed a struct carrying fields of the same names must equal those of the
+// plain node type; prints "OK|BAD\tinput\tdetail".
+func posfieldsStatic(args []string) error {
+	pp := participle.MustBuild[nodePlain]()
+	ps := participle.MustBuild[nodeShadow]()
+	pr := participle.MustBuild[nodePromoted]()
+	key := func(p lexer.Position, e lexer.Position, t []lexer.Token) string {
+		return fmt.Sprintf("%d-%d/%d", p.Offset, e.Offset, len(t))
+	}
+	var walkP func(n *nodePlain, out *[]string)
+	walkP = func(n *nodePlain, out *[]string) {
+		*out = append(*out, key(n.Pos, n.EndPos, n.Tokens))
+		for _, k := range n.Kids {
+			walkP(k, out)
+		}
+	}
+	var walkS func(n *nodeShadow, out *[]string)
+	walkS = func(n *nodeShadow, out *[]string) {
+		*out = append(*out, key(n.Pos, n.EndPos, n.Tokens))
+		for _, k := range n.Kids {
+			walkS(k, out)
+		}
+	}
+	var walkR func(n *nodePromoted, out *[]string)
+	walkR = func(n *nodePromoted, out *[]string) {
+		*out = append(*out, key(n.Pos, n.EndPos, n.Tokens))
+		for _, k := range n.Kids {
+			walkR(k, out)
+		}
+	}
+	for _, in := range []string{"a", "a ( b c )", " a(b(c d) e ( f ) )  ", "x ( )"} {
+		var a, b, c []string
+		v1, e1 := pp.ParseString("", in)
+		v2, e2 := ps.ParseString("", in)
+		v3, e3 := pr.ParseString("", in)
+		if e1 != nil || e2 != nil || e3 != nil {
+			fmt.Printf("BAD\t%q\tparse errors %v %v %v\n", in, e1, e2, e3)
+			continue
+		}
+		walkP(v1, &a)
+		walkS(v2, &b)
+		walkR(v3, &c)
+		status := "OK"
+		if strings.Join(a, " ") != strings.Join(b, " ") || strings.Join(a, " ") != strings.Join(c, " ") {
+			status = "BAD"
+		}
+		fmt.Printf("%s\t%q\tplain %v; own fields shadowing an embedded struct %v; fields promoted from an embedded struct %v\n", status, in, a, b, c)
 	}
 	return nil
 }
